@@ -808,6 +808,6 @@ META = dict(
         "transforms, reciprocal constants), the string shape of every alternative of every emitted header element "
         "with operator precedence as parsed, the three parallel sequences of SMMap.write (same slots, same order, "
         "hold-typed lists twice with head then tail), the positional pairing of computed beats with the list they "
-        "were computed from, and the per-chart header order."),
+        "were computed from, and the per-chart header order. Every repetition of an empty cell, padding rows included, is `keys` wide (R6); a header value passed through round() is lossy (R1)."),
     not_decided="per-measure LCM and cap as numbers, the 1/96-beat bound as a number (the written precision of tempo beats is decided: >= 3 decimals)",
 )
